@@ -140,6 +140,18 @@ func (t *gtree) checkSubs(r *result, after string) {
 	}
 }
 
+// streamTotal: the number of counter changes that all user subscribers of the tree have seen so far.
+func (t *gtree) streamTotal() int {
+	n := 0
+	for _, s := range t.subs {
+		s.mu.Lock()
+		n += len(s.stream)
+		s.mu.Unlock()
+	}
+
+	return n
+}
+
 func (t *gtree) values() string {
 	var b strings.Builder
 	b.WriteString("[")
@@ -260,11 +272,18 @@ func (t *gtree) exec(r *result, op string) string {
 		}
 		gate := make(chan struct{})
 		before := t.nodes[a].pool.PendingTasksCounter.Get()
+		seen := t.streamTotal()
 		t.nodes[a].pool.Submit(func() { <-gate })
 		if t.nodes[a].pool.PendingTasksCounter.Get() == before+1 {
 			t.nodes[a].gates = append(t.nodes[a].gates, gate) // accepted (the script is sequential: nothing else moves the counter)
 		} else {
 			r.count("g:inc-rejected")
+			// a rejected Submit must not move any counter of the tree, not even for a moment: no subscriber of the pool's
+			// counter or of a group above it may have been called
+			if now := t.streamTotal(); now != seen {
+				r.fail("rejected-submit-counted", fmt.Sprintf("a Submit rejected by the stopped pool %d produced %d counter change(s) seen by subscribers (the counters went up and down again)", a, now-seen),
+					map[string]string{"api": "workerpool.WorkerPool.Submit", "effect": "rejected-submit-moved-a-counter"})
+			}
 		}
 	case "newpoolpark":
 		if !t.isGroup(a) {
@@ -868,11 +887,12 @@ func restartOps(variant int) []string {
 	}
 	a, b := g+1, g+2
 	ops = append(ops, fmt.Sprintf("g newpool %d", g), fmt.Sprintf("g newpool %d", g),
+		"g sub 0", fmt.Sprintf("g sub %d", a), // observers of the root's and the pool's counter: a rejected inc must not reach them
 		fmt.Sprintf("g inc %d", a), fmt.Sprintf("g restart %d", a), fmt.Sprintf("g dec %d", a),
 		"g shutdown 0", "g isshut 0", fmt.Sprintf("g isshut %d", g),
 		fmt.Sprintf("g inc %d", a), fmt.Sprintf("g restart %d", a), fmt.Sprintf("g restart %d", a), fmt.Sprintf("g restart %d", g),
 		fmt.Sprintf("g inc %d", a), "g wait 0", fmt.Sprintf("g inc %d", b), fmt.Sprintf("g dec %d", a), "g wait 0",
-		"g shutdown 0", fmt.Sprintf("g inc %d", a), fmt.Sprintf("g inc %d", b), "g wait 0", fmt.Sprintf("g dec %d", a), "g wait 0", "g waitp 0")
+		"g shutdown 0", fmt.Sprintf("g inc %d", a), fmt.Sprintf("g inc %d", b), "g wait 0", fmt.Sprintf("g dec %d", a), "g wait 0", "g waitp 0", "g stream 0", "g stream 1")
 
 	return ops
 }
